@@ -251,6 +251,23 @@ def impl_machine(ops):
     return outs
 
 
+def suffix_differs(ops, full_out):
+    """property oracle on the implementation at the level of operations: what follows the last PEP() must give the same
+    outputs whether it runs from the fresh-interpreter state or after the operations before it (null_point.eval()
+    excepted: finding F-C12a)"""
+    idx = [i for i, o in enumerate(ops) if o == "NewPEP" and i > 0]
+    if not idx:
+        return None
+    i = idx[-1]
+    fresh_out = impl_machine(ops[i:])
+    keep = [j for j, o in enumerate(ops[i:]) if o != "EvalNull"]
+    a = [full_out[i:][j] for j in keep]
+    b = [fresh_out[j] for j in keep]
+    if a != b:
+        return dict(kind="op-history-dependence", ops=ops, index_of_PEP=i, after_history=a, fresh=b)
+    return None
+
+
 def coq_ops(ops):
     return "[" + "; ".join(("(%s)" % o) if " " in o else o for o in ops) + "]"
 
@@ -275,8 +292,9 @@ def gen_ops(rng):
 def stream_machine(tier, seed):
     rng = random.Random(seed * 15485863 + 120)
     n = 300 if tier == "quick" else 3000
-    cases, progs = [], []
+    cases, progs, problems = [], [], []
     hist = {}
+    n_suffix = 0
     for _ in range(n):
         ops = gen_ops(rng)
         d = impl_machine(ops)
@@ -284,6 +302,10 @@ def stream_machine(tier, seed):
         progs.append(ops)
         for o in ops:
             hist[o] = hist.get(o, 0) + 1
+        bad = suffix_differs(ops, d)
+        n_suffix += bad is not None
+        if bad:
+            problems.append(bad)
     force_fresh_state()
     try:
         bad = run_cases("c12m", MACHINE_IMPORTS, MACHINE_RUN, cases, input_type="list op")
@@ -299,8 +321,9 @@ def stream_machine(tier, seed):
                      "globals, null_point.eval()) started from the fresh-interpreter state; compared: every index handed "
                      "out, every counter and registry; non-trivial = at least 6 operations; distinct by sequence",
                 samples=[dict(ops=progs[i], outputs=cases[i][1]) for i in range(min(2, len(cases)))],
-                n_mismatch=len(bad), mismatches=mism, problems=[],
-                distribution=dict(ops=hist, lengths=sorted(set(len(p) for p in progs))))
+                n_mismatch=len(bad), mismatches=mism, problems=problems[:5], n_problems=len(problems),
+                distribution=dict(ops=hist, lengths=sorted(set(len(p) for p in progs)),
+                                  suffix_after_PEP_compared_with_fresh_state=sum(1 for p in progs if "NewPEP" in p[1:])))
 
 
 def correspondence(tier, seed, corpus=()):
@@ -310,18 +333,24 @@ def correspondence(tier, seed, corpus=()):
     for payload in corpus or []:
         if replay(payload):
             problems.append(dict(kind="corpus-case-fails", case=payload))
-    s1 = stream_history(tier, seed)
-    s1["problems"] = (problems + s1["problems"])[:5]
-    out.append(s1)
-    out.append(stream_verbosity(tier, seed))
-    out.append(stream_machine(tier, seed))
+    for name, fn in (("history-independence", stream_history), ("verbosity", stream_verbosity),
+                     ("globals-machine", stream_machine)):
+        try:
+            s = fn(tier, seed)
+        except Exception:       # one stream dying must not hide what the others found
+            import traceback
+            s = dict(name=name, evaluations=0, distinct_nontrivial=0, rule="(stream crashed)", samples=["(stream crashed)"],
+                     n_mismatch=1, mismatches=[dict(kind="stream-crashed", error=traceback.format_exc()[-1500:])],
+                     problems=[], distribution={})
+        out.append(s)
+    out[0]["problems"] = (problems + out[0]["problems"])[:5]
     return out
 
 
 # ------------------------------------------------------------------------------------------ search / findings / replay
 def _fails(chain, fresh_cache):
     """run the chain in a clean process; True iff some program's dump differs from its fresh-interpreter dump"""
-    res = H.chain_in_subprocess(chain)
+    res = [r for r in H.chain_in_subprocess(chain) if "dump" in r]
     progs = [it for it in chain if it[0] == "prog"]
     for it, r in zip(progs, res):
         key = (it[1], it[2])
@@ -420,8 +449,11 @@ def replay(payload):
     if kind == "null-point-cache":
         return null_point_leak()[1]
     if kind == "null-object-mutated":
-        H.chain_in_subprocess([list(x) for x in payload["chain"] if x[0] == "hist"])
-        return True
+        r = H.chain_in_subprocess([list(x) for x in payload["chain"]] + [["nullstate"]])
+        ns = r[-1]["null"]
+        return bool(ns["null_point_dict"] or ns["null_expression_dict"] or ns["null_point_name"] is not None)
+    if kind == "op-history-dependence":
+        return suffix_differs(payload["ops"], impl_machine(payload["ops"])) is not None
     if kind == "model-differs" or "ops" in payload:
         ops = payload["ops"]
         d = impl_machine(ops)
